@@ -98,6 +98,45 @@ def directed_family_cases():
     return out
 
 
+def directed_queued_removal_cases():
+    """the 'trashed' handler of a removal keeps failing while the client is restarted twice (the
+    error queue is saved and reloaded twice with the event pending), then succeeds: the object must
+    be trashed with the bus timestamp of its removal event and stay until that + retention"""
+    import copy
+    import random
+    import clicase
+    import srvcase
+    rng = random.Random(13)
+    base = None
+    while base is None or len(base["cfg"]["types"]) != 1 or not base["cdm"]:
+        base = clicase.gen_case(rng, {"shape": "flat", "retention": 1, "ntypes": 1, "p_unmapped_type": 0.0})
+        base["cfg"]["types"] = base["cfg"]["types"][:1]
+        base["cdm"] = {l: d for l, d in base["cdm"].items() if d["hermesType"] == base["cfg"]["types"][0]["name"]}
+    t = base["cfg"]["types"][0]
+    lname = list(base["cdm"])[0]
+    row = lambda k: dict({a: 1 for a in t["attrs"] if a not in t["pkey"]}, **{t["pkey"][0]: k})
+    DAY = clicase.DAY
+    out = []
+    for R in (1, 2):
+        for nfail in (2, 3):
+            c = copy.deepcopy(base)
+            c["polls"] = [srvcase.to_remote_tables(c["cfg"], x) for x in ({t["name"]: {1: row(1)}}, {t["name"]: {}})]
+            c["retention"], c["fkpolicy"], c["remediation"] = R, "disabled", "disabled"
+            c["ts_override"] = {"1": 1, "2": 2, "3": 10, "4": 1000}
+            its = [{"limit": 4, "now": 1100, "restart": False, "faults": True},
+                   {"limit": 4, "now": 1200, "restart": True, "faults": True},
+                   {"limit": 4, "now": 1300, "restart": True, "faults": True},
+                   {"limit": 4, "now": 1400, "restart": nfail == 3, "faults": True},
+                   {"limit": 4, "now": 1500, "restart": False, "faults": True},
+                   {"limit": 4, "now": 1000 + R * DAY - 10, "restart": False, "faults": False},
+                   {"limit": 4, "now": 1000 + R * DAY + 3600, "restart": False, "faults": False},
+                   {"limit": 4, "now": 1000 + R * DAY + 7200, "restart": False, "faults": False}]
+            c["sessions"] = {"iters": its, "outcomes": ["ok"] * 40, "fail_rule": {f"on_{lname}_trashed|1": nfail}}
+            c["sseed"], c["session_opts"] = 0, {}
+            out.append(c)
+    return out
+
+
 def switched_with_pending(case, ob):
     """retention goes from R>0 to 0 at a restart while the error queue holds events queued under R>0"""
     its = ob["sessions"]["iters"]
@@ -135,7 +174,7 @@ def run(ctx):
             c["session_opts"]["p_restart"] = max(c["session_opts"]["p_restart"], 0.2)
         elif rng.random() < 0.15:
             c["retention"] = 0
-    directed = directed_cases() + directed_family_cases()
+    directed = directed_cases() + directed_family_cases() + directed_queued_removal_cases()
     cases = directed + cliprops.gen_cases(ctx, n, copts, sopts, tweak=tweak)
     for i, c in enumerate(cases):
         c["subsecond"] = i % 2 == 1       # half of the histories with bus timestamps off the whole second
